@@ -14,11 +14,12 @@ open Darsia Darsia.Pipeline
 def diffOf (c : Config) (base : Option Arr) (probe : Arr) : Arr :=
   match base with | some b => diff c.opt b probe | none => diffNoBase c.opt probe
 
-def thrOf (c : Config) (base : Option Arr) (extras : List Arr) : Option (List Rat) :=
+def thrOf (c : Config) (base : Option Arr) (extras : List Arr) : Option (List Px) :=
   match base with | some b => cleaningFilter c b extras | none => none
 
-def cleanOpt (t : Option (List Rat)) (a : Arr) : Arr := match t with | some t => clean t a | none => a
+def cleanOpt (t : Option (List Px)) (a : Arr) : Arr := match t with | some t => clean t a | none => a
 
+/-- (definitional unfolding of `call`, used below) -/
 theorem call_eq (c : Config) (k : Kind) (base : Option Arr) (extras : List Arr) (probe : Arr) :
     (call c k base extras probe).trace = (runStages (stageList c (thrOf c base extras)) (diffOf c base probe)).2 ∧
     (call c k base extras probe).out = (runStages (stageList c (thrOf c base extras)) (diffOf c base probe)).1 := by
@@ -52,8 +53,8 @@ theorem baseline_zero (c : Config) (k : Kind) (base : Arr) (extras : List Arr)
 
 /-- the cleaning threshold learnt from extra baselines is non-negative everywhere (it starts at zero and only
 takes element-wise maxima) — the hypothesis "threshold ≥ 0" of the baseline theorem is always met -/
-theorem cleaning_filter_nonneg (c : Config) (base : Arr) (extras : List Arr) (t : List Rat)
-    (h : cleaningFilter c base extras = some t) : ∀ x ∈ t, 0 ≤ x :=
+theorem cleaning_filter_nonneg (c : Config) (base : Arr) (extras : List Arr) (t : List Px)
+    (h : cleaningFilter c base extras = some t) : ∀ tp ∈ t, ∀ x ∈ tp, 0 ≤ x :=
   cleaningFilter_nonneg c base extras t h
 
 def present {α} (o : Option α) (n : StageName) : List StageName := if o.isSome then [n] else []
@@ -108,13 +109,69 @@ theorem pos_sub_neg_eq_plain (base probe : Arr) :
     arrZip (· - ·) (diff .positive base probe) (diff .negative base probe) = diff .plain base probe :=
   diff_combine _ _ _ _ (fun p b => pos_sub_neg p b) base probe
 
-/-- **The probe is left unmodified** (and so is the stored baseline), whatever the stage objects do to the
-buffers they are handed: only the deep copy and intermediate arrays ever reach a stage. -/
-theorem probe_unchanged (c : Config) (k : Kind) (base : Option Arr) (extras : List Arr) (probe : Arr) :
-    (call c k base extras probe).probeAfter = probe ∧ (call c k base extras probe).baseAfter = base :=
-  ⟨rfl, rfl⟩
+/-- the functional `call` is the state machine started by the constructor -/
+theorem call_eq_callSt (c : Config) (k : Kind) (base : Option Arr) (extras : List Arr) (probe : Arr) :
+    (call c k base extras probe).out = (callSt c k (AState.init c base extras) probe).out ∧
+    (call c k base extras probe).trace = (callSt c k (AState.init c base extras) probe).trace := by
+  cases base <;> exact ⟨rfl, rfl⟩
 
-/-- **Kind rule**: the result is a `ScalarImage` exactly when the signal lost one axis w.r.t. the probe
+/-- **The probe is left unmodified** — on buffers. `callOp` runs the call on a heap of arrays (cell 0: the caller's
+probe, cell 1: the stored baseline): the probe is deep-copied, the difference is a new array or (option `plain`,
+no baseline) the array of the copy, every stage is handed a buffer it may overwrite. Whatever the stage objects
+write: the caller's probe and the stored baseline are unchanged, and the returned array holds exactly the value of
+the functional specification — in every state of the analysis object. -/
+theorem probe_unchanged (c : Config) (k : Kind) (st : AState) (probe : Arr) :
+    (callOp true c st probe).1[0]? = some probe ∧
+    (∀ b, st.base = some b → (callOp true c st probe).1[1]? = some b) ∧
+    (callOp true c st probe).1[(callOp true c st probe).2]? = some (callSt c k st probe).out :=
+  callOp_deep c k st probe
+
+/-- ... and this is because of the copy: without it (`deep = false`), option `plain`, no baseline and a reduction that
+overwrites its input, the caller's probe is destroyed. -/
+example :
+    let scribbler : Stage := fun a => ((StageFn.chan 0).eval a, { a with px := a.px.map fun p => p.map fun _ => 7 })
+    let c : Config := { opt := .plain, reduction := some scribbler, balancing := none, restoration := none, model := none,
+                        restorationFirst := true }
+    let st : AState := { base := none, thr := none }
+    let probe : Arr := { scalar := false, px := [[1, 2, 3]] }
+    (callOp false c st probe).1[0]? ≠ some probe ∧ (callOp true c st probe).1[0]? = some probe := by
+  decide +kernel
+
+/-- **update**: after any sequence of `update(base=…)` calls ending with baseline `b` (and whatever extra baselines
+the filter was learnt from at construction — it stays non-negative), the analysis maps `b` to the zero signal. -/
+theorem baseline_zero_after_updates (c : Config) (k : Kind) (base0 : Option Arr) (extras us : List Arr) (b : Arr)
+    (hr : ZeroPreserving c.reduction) (hb : ZeroPreserving c.balancing)
+    (hs : ZeroPreserving c.restoration) (hm : ZeroPreserving c.model) :
+    IsZero (callSt c k ((us ++ [b]).foldl (fun s u => s.update (some u)) (AState.init c base0 extras)) b).out := by
+  simp only [callSt, updates_base, updates_thr]
+  apply runStages_zero _ _ _ (diff_self_zero c.opt b)
+  intro s hmem x hx
+  simp only [stageList, List.mem_append, List.mem_map, Option.mem_toList] at hmem
+  rcases hmem with ((⟨f, hf, rfl⟩ | ⟨t, ht, rfl⟩) | ⟨f, hf, rfl⟩) | hmem
+  · exact hr f hf x hx
+  · refine clean_zero t ?_ x hx
+    cases base0 with
+    | none => simp [AState.init] at ht
+    | some b0 => exact cleaningFilter_nonneg c b0 extras t (by simpa [AState.init] using ht)
+  · exact hb f hf x hx
+  · split at hmem
+    · simp only [List.mem_append, List.mem_map, Option.mem_toList] at hmem
+      rcases hmem with ⟨f, hf, rfl⟩ | ⟨f, hf, rfl⟩
+      · exact hs f hf x hx
+      · exact hm f hf x hx
+    · simp only [List.mem_append, List.mem_map, Option.mem_toList] at hmem
+      rcases hmem with ⟨f, hf, rfl⟩ | ⟨f, hf, rfl⟩
+      · exact hm f hf x hx
+      · exact hs f hf x hx
+
+/-- and a probe is then analysed against the NEW baseline with the OLD filter: `update` replaces the baseline only -/
+theorem update_replaces_baseline_only (c : Config) (base0 : Option Arr) (extras us : List Arr) (b : Arr) :
+    ((us ++ [b]).foldl (fun s u => s.update (some u)) (AState.init c base0 extras)).base = some b ∧
+    ((us ++ [b]).foldl (fun s u => s.update (some u)) (AState.init c base0 extras)).thr = (AState.init c base0 extras).thr :=
+  ⟨updates_base _ us b, updates_thr _ _⟩
+
+/-- **Kind rule** (unfolds the definition `resultKind`, which transcribes `is_scalar = len(concentration.shape) ==
+len(img.shape) - 1`; what it adds is that the rule is applied to the FINAL array): the result is a `ScalarImage` exactly when the signal lost one axis w.r.t. the probe
 (reduced to one channel), otherwise an image of the probe's own class. -/
 theorem scalar_kind_rule (c : Config) (k : Kind) (base : Option Arr) (extras : List Arr) (probe : Arr) :
     let r := call c k base extras probe
@@ -209,33 +266,27 @@ theorem diff_no_wrap (bits : Nat) (hb : 0 < bits) (base probe : List Nat)
 example : wrapSub 8 3 5 = 254 ∧ DiffOpt.positive.val (promote 8 3) (promote 8 5) = 0 ∧
     DiffOpt.plain.val (promote 8 3) (promote 8 5) = -2 / 255 := by decide +kernel
 
-/-- **Cleaning-filter accumulation**: with extra baselines `e :: extras` the threshold is the running maximum,
-started at 0, of their reduced differences with the baseline; every entry is non-negative, dominates the
-corresponding entry of every extra baseline's signal, and is attained (0 or the entry of one of them). -/
+/-- **Cleaning-filter accumulation**: with extra baselines `e :: extras` the threshold has the shape of the reduced
+signal (also for multi-channel signals) and is the running maximum, started at 0, of their reduced differences with
+the baseline; every entry is non-negative, dominates the corresponding entry of every extra baseline's signal, and is
+attained (0 or the entry of one of them). -/
 theorem cleaning_filter_is_running_max (c : Config) (base e : Arr) (extras : List Arr) :
-    let signals := (e :: extras).map fun b => (applyOpt c.reduction (diff c.opt base b)).px.map (·.headD 0)
-    cleaningFilter c base (e :: extras) = some (accumulate base.px.length signals) ∧
-    ∀ (i : Nat) (t : Rat), (accumulate base.px.length signals)[i]? = some t →
-      0 ≤ t ∧ (∀ s ∈ signals, ∀ x : Rat, s[i]? = some x → x ≤ t) ∧ (t = 0 ∨ ∃ s ∈ signals, s[i]? = some t) := by
+    let signals := (e :: extras).map fun b => (extraSignal c base b).px
+    cleaningFilter c base (e :: extras) = some (accumulate signals) ∧
+    ∀ (i j : Nat) (row : Px) (t : Rat), (accumulate signals)[i]? = some row → row[j]? = some t →
+      0 ≤ t ∧ (∀ s ∈ signals, ∀ (p : Px) (x : Rat), s[i]? = some p → p[j]? = some x → x ≤ t) ∧
+      (t = 0 ∨ ∃ s ∈ signals, ∃ p : Px, s[i]? = some p ∧ p[j]? = some t) := by
   intro signals
-  refine ⟨cleaningFilter_eq_accumulate c base e extras, fun i t ht => ⟨accumulate_nonneg _ _ i t ht,
-    fun s hs x hx => accumulate_ge _ _ s hs i t x ht hx, ?_⟩⟩
-  rcases foldl_stepMax_attained signals _ i t ht with h | h
-  · left
-    rw [List.getElem?_replicate] at h
-    split at h
-    · cases h; rfl
-    · contradiction
-  · exact Or.inr h
+  exact ⟨cleaningFilter_eq_accumulate c base e extras, fun i j row t hr ht => accumulate_spec signals i j row t hr ht⟩
 
 /-- hence every extra baseline is itself cleaned to zero: wherever the threshold and its reduced signal are defined,
 `clip(signal − threshold, 0)` vanishes (the structural noise the filter was learnt from is removed). -/
 theorem extra_baseline_cleaned_zero (c : Config) (base e : Arr) (extras : List Arr) (b : Arr) (hb : b ∈ e :: extras)
-    (i : Nat) (t x : Rat)
-    (ht : (accumulate base.px.length ((e :: extras).map fun b => (applyOpt c.reduction (diff c.opt base b)).px.map (·.headD 0)))[i]? = some t)
-    (hx : ((applyOpt c.reduction (diff c.opt base b)).px.map (·.headD 0))[i]? = some x) :
+    (i j : Nat) (row p : Px) (t x : Rat)
+    (hr : (accumulate ((e :: extras).map fun b => (extraSignal c base b).px))[i]? = some row) (ht : row[j]? = some t)
+    (hp : (extraSignal c base b).px[i]? = some p) (hx : p[j]? = some x) :
     Pipeline.posPart (x - t) = 0 := by
-  have hle := accumulate_ge _ _ _ (List.mem_map.mpr ⟨b, hb, rfl⟩) i t x ht hx
+  have hle := (accumulate_spec _ i j row t hr ht).2.1 _ (List.mem_map.mpr ⟨b, hb, rfl⟩) p x hp hx
   unfold Pipeline.posPart
   split_ifs with h
   · linarith
